@@ -114,6 +114,15 @@ def run_case(cls, reach, cfg, bs, val_int, over, under):
     except Exception as e:
         out.append(("C05_Decode", "decode raised %s" % type(e).__name__))
     try:
+        # the same bytes read through the documented file adapter (a bytes subclass that serves data by slicing only)
+        import io
+        from bisturi.util import SeekableFile
+        got = get_value(reach, cls.unpack(SeekableFile(io.BytesIO(raw))))
+        if got != val_int or type(got) is not int:
+            out.append(("C05_Decode", "decoded %r from a file, specification %r" % (got, val_int)))
+    except Exception as e:
+        out.append(("C05_Decode", "decode from a file raised %s" % type(e).__name__))
+    try:
         b = make(cls, reach, val_int).pack()
         if b != raw:
             out.append(("C05_EncodeBytes", "encoded %r, specification %r" % (b, raw)))
